@@ -177,6 +177,8 @@ type explainer struct {
 	onStack map[uint64]bool
 	// ruleIDs memoizes content-addressed rule IDs keyed by index in program.Rules.
 	ruleIDs map[int]string
+	// cuts counts how often the search was cut because a goal was already on the stack.
+	cuts int
 }
 
 func (e *explainer) explain(goal ast.Atom, depth int) []*ProofNode {
@@ -188,10 +190,12 @@ func (e *explainer) explain(goal ast.Atom, depth int) []*ProofNode {
 		return cached
 	}
 	if e.onStack[h] {
+		e.cuts++
 		return nil
 	}
 	e.onStack[h] = true
 	defer delete(e.onStack, h)
+	cutsBefore := e.cuts
 
 	var proofs []*ProofNode
 
@@ -232,7 +236,11 @@ func (e *explainer) explain(goal ast.Atom, depth int) []*ProofNode {
 		}
 	}
 
-	e.cache[h] = proofs
+	if len(proofs) > 0 || e.cuts == cutsBefore {
+		// "No proof" found while a cycle was cut only means: none that avoids the goals
+		// currently on the stack. It must not be remembered for other contexts.
+		e.cache[h] = proofs
+	}
 	return proofs
 }
 
